@@ -212,11 +212,23 @@ func (c *child) stop() {
 
 func (c *child) crashText() string {
 	s := c.stderr.String()
-	for _, marker := range []string{"panic: ", "fatal error: ", "WARNING: DATA RACE"} {
+	for _, marker := range []string{"panic: ", "fatal error: "} {
 		if i := strings.Index(s, marker); i >= 0 {
 			end := min(len(s), i+1500)
 			return s[i:end]
 		}
+	}
+	// -race children: a race on a Go map reached from frp code is the "unsynchronised concurrent access to
+	// a shared table" of the property (it is a fatal 'concurrent map writes' waiting to happen); other race
+	// reports are counted as information only
+	for _, rep := range strings.Split(s, "WARNING: DATA RACE")[1:] {
+		if end := strings.Index(rep, "=================="); end >= 0 {
+			rep = rep[:end]
+		}
+		if (strings.Contains(rep, "runtime.mapassign") || strings.Contains(rep, "runtime.mapaccess") || strings.Contains(rep, "runtime.mapdelete") || strings.Contains(rep, "runtime.mapiter")) && strings.Contains(rep, "github.com/fatedier/frp/") {
+			return "WARNING: DATA RACE (on a map)" + rep[:min(len(rep), 1500)]
+		}
+		fx.AddLabel("frps_barrage", "info:data-race-not-on-a-map", 1)
 	}
 	return ""
 }
